@@ -14,6 +14,13 @@ var ghostKeys = map[string]string{
 	"$screst":   "(Array Int Bytes)", // bufio.Scanner handle -> unread remainder
 	"$sctok":    "(Array Int Bytes)", // bufio.Scanner handle -> current token
 	"$out":      "(Sq Bytes)",        // lines printed to stdout (fmt.Print*, color.*)
+	"$calls":    "(Array Int Int)",   // function value -> number of calls made through it
+}
+
+// hidden state of library objects, console output and call counters: never part of a frame obligation; a caller
+// loses what it knew about them whenever the callee may (syntactically, transitively) touch them
+func isHiddenGhost(k string) bool {
+	return k == "$out" || k == "$rdpos" || k == "$hashdata" || k == "$screst" || k == "$sctok" || k == "$calls"
 }
 
 func isGhostKey(k string) bool { _, ok := ghostKeys[k]; return ok }
